@@ -213,23 +213,33 @@ theorem eof_opcodes_stop_in_legacy_partial (s : IState) (h1 : s.isEof = false) (
     execInstr .eofOnly s = .halt .EOFOpcodeDisabledInLegacy [] s
     ∧ execInstr .returnContract s = .halt .ReturnContractInNotInitEOF [] s := by
   constructor
-  · show Outcome.pure (Exec.toDone ((do requireEof; faultWith Fault.panic : M Unit) s)) = _
-    show Outcome.pure (Exec.toDone (M.bind requireEof (fun _ => faultWith Fault.panic) s)) = _
+  · show Outcome.pure (Exec.toDone ((do requireEof; faultWith Fault.notModelled : M Unit) s)) = _
+    show Outcome.pure (Exec.toDone (M.bind requireEof (fun _ => faultWith Fault.notModelled) s)) = _
     unfold M.bind requireEof
     rw [h1]; rfl
   · show Outcome.pure (Exec.toDone (if !s.isEofInit then _ else _)) = _
     rw [h2]; rfl
 
-/-- The part of C25 about EOF that is NOT proved (and not modelled): for a container accepted by
-`validate_eof` (C26), running its code sections with the EOF instruction set (RJUMP, RJUMPI, RJUMPV, CALLF, RETF,
-JUMPF, DUPN, SWAPN, EXCHANGE, DATALOAD, DATALOADN, DATASIZE, DATACOPY, RETURNDATALOAD, EOFCREATE, RETURNCONTRACT,
-EXTCALL, EXTDELEGATECALL, EXTSTATICCALL) never reaches a fault and terminates within the gas limit. It needs an
-`IState` with the code sections and the function stack, `step` for those opcodes (relative jumps move the pointer by
-immediates that only validation bounds), and the theorem "validated ⇒ every immediate is in range" of C26, whose
-headline is itself `_partial`. `stepEof` is a parameter here so that the statement can be written down. -/
-def FullStatementEof (EofState : Type) (validated : EofState → Prop) (gasOf : EofState → Nat)
-    (runEof : Nat → EofState → RunResult) : Prop :=
-  ∀ s, validated s → ∀ fuel, gasOf s < fuel →
-    ∃ r out s', runEof fuel s = .done r out s' ∧ s'.gas.remaining ≤ gasOf s
+/-- The part of C25 about EOF that is NOT proved. The model runs EOF containers (`IState.initEof`: code sections,
+types, data, function stack; RJUMP, RJUMPI, RJUMPV, CALLF, RETF, JUMPF, DUPN, SWAPN, EXCHANGE, DATALOAD, DATALOADN,
+DATASIZE, DATACOPY, RETURNDATALOAD in EOF mode — tied to the code by the lockstep stream), but relative jumps and section
+indices are bounded by validation only, so the theorem needs "validated ⇒ every immediate in range, every section
+ends in a terminating instruction, max_stack_size respected" (C26, whose headline is itself `_partial`) and a model
+of EOFCREATE / RETURNCONTRACT / EXT*CALL (`Fault.notModelled` today). `Validated` is the validation predicate. -/
+def FullStatementEof (Validated : EofCtx → Prop) : Prop :=
+  ∀ {η : Type} (o : Oracle η), OracleOk o → ∀ (h0 : η) (ctx : EofCtx), Validated ctx →
+  ∀ (input : List Nat) (gasLimit : Nat) (isStatic : Bool) (spec target caller callValue : Nat) (env : Env),
+    input.length ≤ Memory.ISIZE_MAX → gasLimit < U64 → EnvOk spec env →
+  ∀ fuel, gasLimit < fuel →
+    ∃ r out s', (run o fuel (IState.initEof ctx input gasLimit isStatic spec target caller callValue env) h0).1
+        = .done r out s' ∧ s'.gas.remaining ≤ gasLimit
+
+/-- without validation the statement is false: a relative jump may leave the section (here RJUMP +16 in a
+4-byte section; the next fetch is outside the buffer) -/
+theorem eof_unvalidated_counterexample :
+    (run nullOracle 10
+      (IState.initEof { sections := [[0xe0, 0x00, 0x10, 0x00]], types := [(0, 0x80, 0)], data := [], dataSize := 0 }
+        [] 1000 false 19 0 0 0 {}) ()).1 = .fault .oobCode := by
+  rfl
 
 end Revm.Props.C25
